@@ -568,8 +568,9 @@ def story_send_shape(W, H, mb):
 @contract('mosromgr.mostypes.StorySend._convert_story_send_to_story_tag')
 class ConvertStorySend(Contract):
     """caller-facing contract; the body proof (two loops, C04) is in merge_convert.py"""
-    props = ('C04',)
+    props = ()
     opaque = True
+    body_proved = False      # caller-facing contract only (C04 body proof not built yet) -> reported as assumed
 
     def requires(self, cx):
         o = cx.node('ss_tag_orig')
